@@ -56,7 +56,8 @@ PermMatch(obs, exp) ==
 \* obs is a legitimate outcome at all (C09/C10: a value, no value, or an error - nothing else)
 Legit(obs) == obs.o \in {"val", "undef", "err"}
 
-\* a string outside the model (not UTF-8) somewhere in an observed value
+\* a string outside the model (not UTF-8) somewhere in an observed value: it matches no value of the specification, so it is
+\* accepted only where the specification itself abstains (e.g. $base64decode of bytes that are not UTF-8)
 RECURSIVE HasStrX(_)
 HasStrX(x) == CASE x.t = "strx" -> TRUE
                 [] x.t = "arr" -> \E i \in 1..Len(x.v) : HasStrX(x.v[i])
@@ -76,7 +77,6 @@ Verdict1(obs, R) ==
           ELSE IF "i" \in DOMAIN R /\ "i" \in DOMAIN obs /\ R.i # obs.i THEN "no" ELSE "ok")
     ELSE IF IsUndef(R.r) THEN (IF obs.o = "undef" THEN "ok" ELSE "no")
     ELSE IF obs.o # "val" THEN "no"
-    ELSE IF HasStrX(obs.r) THEN "inc:string that is not UTF-8"
     ELSE IF HasNumX(R.r) \/ HasBigDen(R.r) THEN "inc:number outside the model"
     ELSE IF MatchVal(obs.r, R.r) THEN "ok"
     ELSE IF R.st.perm THEN (IF PermMatch(obs.r, R.r) THEN "ok" ELSE "inc:member order")
